@@ -46,15 +46,25 @@ def analyse25(ck):
     ob.add({"C25"}, okl, "CMP", "limb/as_32_bit_limb", "as_32_bit_limb(v) is Err exactly when v > 0xFFFF_FFFF", mv.loc0, [(T.show(g["cond"])[:80], g["fail_when"], sorted(g["outcome"])) for g in mv.gt])
     for fn in ("try_felts_to_u64", "try_felts_to_u128", "try_felt_to_quantized_u128"):
         mv = e2.MethodView(ck, "^" + S.replace("::", "::") + fn + "$", COMMON)
-        lim = mv.calls(lambda t: t.get("name") == "as_32_bit_limb")
-        ok = len(lim) == 1
+        # the per-felt step may be the loop body of the function or the closure of a `try_fold`: look in whichever body holds the check
+        holders = [(b_, [(bb, t) for bb, t in b_.calls() if t.get("name") == "as_32_bit_limb"]) for b_ in [mv.body] + prog.closures_of(mv.body)]
+        holders = [(b_, l_) for b_, l_ in holders if l_]
+        ok = len(holders) == 1 and len(holders[0][1]) == 1
         if ok:
-            cb = guards.continue_block(mv.body, lim[0][0])
+            hb, lim = holders[0]
+            cb = guards.continue_block(hb, lim[0][0])
             # every accumulation (BitOr / Shl / Mul on the limb) is dominated by the successful limb check
-            acc = [bi for bi, blk in enumerate(mv.body.blocks) for s in blk["s"] if s.get("r", {}).get("k") == "bin" and s["r"]["op"] in ("BitOr", "Shl", "ShlUnchecked", "Mul", "MulWithOverflow")]
-            ok = cb is not None and bool(acc) and all(cfg.dominates(mv.body, cb, bi) for bi in acc)
-            arg = P.norm(mv.fr.operand_term(lim[0][1]["args"][0]))
+            acc = [bi for bi, blk in enumerate(hb.blocks) for s in blk["s"] if s.get("r", {}).get("k") == "bin" and s["r"]["op"] in ("BitOr", "Shl", "ShlUnchecked", "Mul", "MulWithOverflow")]
+            other_acc = [1 for b_ in [mv.body] + prog.closures_of(mv.body) if b_ is not hb for blk in b_.blocks for s in blk["s"]
+                         if s.get("r", {}).get("k") == "bin" and s["r"]["op"] in ("BitOr",)]
+            ok = cb is not None and bool(acc) and all(cfg.dominates(hb, cb, bi) for bi in acc) and not other_acc
+            hfr = mv.fr if hb is mv.body else T.Evaluator(prog).frame(hb)
+            arg = P.norm(hfr.operand_term(lim[0][1]["args"][0]))
             ok = ok and (P.call_name(arg) or "").endswith("serialization::to_u64")
+            if hb is not mv.body:
+                # the closure is the step of a try_fold over the function's input (so every felt goes through it, and an Err stops the fold)
+                tf = [t for bb, t in mv.body.calls() if t.get("name") == "try_fold"]
+                ok = ok and len(tf) == 1
         ob.add({"C25"}, ok, "DOM", "limb/" + fn, "%s checks every felt with as_32_bit_limb (on its canonical u64) before accumulating it" % fn, mv.loc0)
     mv = e2.MethodView(ck, "^" + S.replace("::", "::") + "try_u128_to_quantized_felt$", COMMON)
     g = err_guard(mv, "Gt", lambda t: "Div" in T.show(t, maxdepth=3) and P.param_path(t[2] if isinstance(t, tuple) and len(t) > 2 else None) in ("num", None), lambda t: P.const_of(t) == 0xFFFFFFFF)
